@@ -532,6 +532,9 @@ func init() {
 			if seq%40 == 7 {
 				vdbDeepCache(c, seq)
 			}
+			if seq%40 == 27 || (seq == 3 && c.N < 40) {
+				vdbDeepOrders(c, seq)
+			}
 			if seq%25 == 3 {
 				vdbTwoWriters(c, seq)
 			}
@@ -1134,6 +1137,260 @@ func vdbDeepCache(c *Ctx, seq int) {
 		return
 	}
 	c.Hit("deep-cache-scenario")
+}
+
+// vdbDeepOrders: the ORDER families of the two levels of the rollback-overlay cache around maximumCacheHeightDifference (C07: a view
+// returns the state as of its commit "regardless of the cache state"). An overlay that is cached for X is tagged with the frontier T
+// of the moment; the next open of X extends it from T to the new frontier and files it again - in the first level while X is less
+// than maximumCacheHeightDifference commits below the frontier, in the second level from then on. The scenario grows ONE chain
+// across the boundary and opens a few identifiers X near its bottom two or three times each, at depths (d1 < d2 < d3) drawn around
+// the boundary:
+//
+//	near→far        d1 < max ≤ d2          (first-level entry re-opened once the frontier is max ahead)
+//	far→far         max ≤ d1 < d2          (second open at that depth: second-level hit)
+//	near→near→far   d1 < d2 < max ≤ d3
+//	twice-at-once   the same X opened twice at one frontier, at or beyond the boundary
+//
+// with the frontier advancing between the opens; then the frontier advances once more and EVERY identifier that played a part is
+// opened: every former frontier T (the tag of some cached entry) and its neighbours T-1, T+1 - none of them opened before, so
+// nothing of theirs is in the first level -, every X and its neighbours, the frontier. Each view is validated in full (every key of
+// the universe by Get and Has, the full scan against reads and shadow, two prefix scans for the Lean model).
+func vdbDeepOrders(c *Ctx, seq int) {
+	dir, err := os.MkdirTemp("", "zvdb")
+	if err != nil {
+		panic(err)
+	}
+	defer os.RemoveAll(dir)
+	m := db.NewLevelDBManager(dir)
+	defer func() { safely(func() { m.Stop() }) }()
+	_, _, maxDiff := db.CacheConstantsVerif()
+	c.Emit("vdb-reset")
+	counter := uint64(seq)<<32 | 1<<30 | 1<<28
+	newHash := func() types.Hash {
+		counter++
+		var h types.Hash
+		binary.BigEndian.PutUint64(h[:8], counter)
+		h[31] = 1
+		return h
+	}
+	var chain []types.HashHeight
+	specs := map[string]shadow{"0:": {}}
+	universe := map[string]bool{}
+	commit := func() bool {
+		n := 1 + c.R.Intn(3)
+		ops := make([]kvOp, 0, n)
+		for i := 0; i < n; i++ {
+			if c.R.Intn(5) == 0 {
+				ops = append(ops, kvOp{del: true, k: vdbKey(c)})
+			} else {
+				val := vdbVal(c)
+				if c.R.Intn(4) != 0 {
+					val = append(val, 1)
+				}
+				ops = append(ops, kvOp{k: vdbKey(c), v: val})
+			}
+		}
+		for _, o := range ops {
+			universe[string(o.k)] = true
+		}
+		prev := types.ZeroHashHeight
+		pk := "0:"
+		if len(chain) > 0 {
+			prev = chain[len(chain)-1]
+			pk = idStr(prev)
+		}
+		id := types.HashHeight{Height: prev.Height + 1, Hash: newHash()}
+		p := db.NewPatch()
+		for _, o := range ops {
+			if o.del {
+				p.Delete(o.k)
+			} else {
+				p.Put(o.k, o.v)
+			}
+		}
+		if err := m.Add(&vTx{commits: []db.Commit{&vCommit{id: id, prev: prev}}, patch: p}); err != nil {
+			c.Fail("vdb deep-orders seq=%d: commit refused: %v", seq, err)
+			return false
+		}
+		c.Emit("vdb-add %s %s %s | ok", pk, idStr(id), opsString(ops, false))
+		ns := specs[pk].clone()
+		for _, o := range ops {
+			if o.del {
+				delete(ns, string(o.k))
+			} else {
+				ns[string(o.k)] = o.v
+			}
+		}
+		specs[idStr(id)] = ns
+		chain = append(chain, id)
+		return true
+	}
+	var story []string // the opens so far
+	planned := 0       // how many of them belong to the plan (set when the sweep starts)
+	nviews := 0
+	check := func(height int, what string) bool {
+		x := chain[height-1]
+		F := len(chain)
+		story = append(story, fmt.Sprintf("Get(%d) at frontier %d", height, F))
+		if len(story) > planned+8 && planned > 0 {
+			// (keeps the opens of the plan and the last eight of the sweep)
+			story = append(append([]string{}, story[:planned]...), story[len(story)-8:]...)
+		}
+		var d db.DB
+		pn := safely(func() { d = m.Get(x) })
+		name := fmt.Sprintf("o%d", nviews)
+		nviews++
+		if d == nil {
+			c.Emit("vdb-view %s %s | nil", name, idStr(x))
+			c.Fail("vdb deep-orders seq=%d %s: view at height %d (%d below the frontier %d) could not be opened (panic=%s); opens so far: %s", seq, what, height, F-height, F, firstLine(pn), strings.Join(story, ", "))
+			return false
+		}
+		c.Emit("vdb-view %s %s | ok", name, idStr(x))
+		if got := db.GetFrontierIdentifier(d); got != x {
+			c.Fail("vdb deep-orders seq=%d %s: the view opened at %s (height %d, frontier %d) identifies itself as %s; opens so far: %s", seq, what, idStr(x), height, F, idStr(got), strings.Join(story, ", "))
+			return false
+		}
+		v := &vView{name: name, d: d, base: specs[idStr(x)].clone(), writes: map[string][]byte{}, version: idStr(x), hist: height < F}
+		_, entries, _ := scanDB(d, nil)
+		for _, pfx := range [][]byte{{3}, {4}} {
+			g1, _, _ := scanDB(d, pfx)
+			c.Emit("vdb-scan %s %s | %s", name, hx(pfx), g1)
+		}
+		ks := make([]string, 0, len(universe))
+		for k := range universe {
+			ks = append(ks, k)
+		}
+		sort.Strings(ks)
+		for _, k := range ks {
+			val, ok := v.lookup([]byte(k))
+			gv, gerr := d.Get([]byte(k))
+			has, _ := d.Has([]byte(k))
+			if ok != (gerr == nil) || ok != has || (ok && !bytes.Equal(gv, val)) {
+				c.Fail("vdb deep-orders seq=%d %s: view at height %d (%s, %d commits below the frontier %d) key %s: store says (%s,%v,has=%v), state as of that commit: present=%v value=%s; opens so far: %s",
+					seq, what, height, idStr(x), F-height, F, hx([]byte(k)), hx(gv), gerr, has, ok, hx(val), strings.Join(story, ", "))
+				return false
+			}
+		}
+		tag := fmt.Sprintf("vdb deep-orders seq=%d %s (view at height %d, frontier %d; opens so far: %s)", seq, what, height, F, strings.Join(story, ", "))
+		if !vdbScanAgreesWithReads(c, tag, v, nil, entries, universe) || !vdbScanAgreesWithShadow(c, tag, v, nil, entries) {
+			return false
+		}
+		return true
+	}
+	// the plan: targets near the bottom, the depths at which each is opened
+	type open struct {
+		at, height int // frontier height at which `height` is opened
+		fam        string
+		twice      bool
+	}
+	var plan []open
+	ntargets := 2 + c.R.Intn(2)
+	fams := []string{"near-far", "far-far", "near-near-far", "twice-at-once"}
+	last := 0
+	for i := 0; i < ntargets; i++ {
+		h := 1 + 3*i + c.R.Intn(3)
+		fam := fams[(seq/40+i)%len(fams)]
+		var ds []int
+		switch fam {
+		case "near-far":
+			d1 := maxDiff - 1 - c.R.Intn(4)
+			d2 := maxDiff + c.R.Intn(4)
+			ds = []int{d1, d2}
+			if c.R.Intn(2) == 0 {
+				ds = append(ds, d2+1+c.R.Intn(5))
+			}
+		case "far-far":
+			d1 := maxDiff + c.R.Intn(3)
+			d2 := d1 + 1 + c.R.Intn(4)
+			ds = []int{d1, d2}
+			if c.R.Intn(2) == 0 {
+				ds = append(ds, d2+1+c.R.Intn(5))
+			}
+		case "near-near-far":
+			d2 := maxDiff - 1 - c.R.Intn(3)
+			ds = []int{d2 - 1 - c.R.Intn(25), d2, maxDiff + c.R.Intn(3)}
+		default:
+			d1 := maxDiff + c.R.Intn(2)
+			ds = []int{d1, d1, d1 + 1 + c.R.Intn(4)}
+		}
+		for j, d := range ds {
+			plan = append(plan, open{at: h + d, height: h, fam: fam, twice: j > 0 && ds[j-1] == d})
+			if h+d > last {
+				last = h + d
+			}
+		}
+		c.Hit("deep-orders-" + fam)
+	}
+	sort.SliceStable(plan, func(i, j int) bool { return plan[i].at < plan[j].at })
+	tags := map[int]bool{}    // former frontiers: the tags of cached entries
+	targets := map[int]bool{} // the identifiers that were opened
+	for _, o := range plan {
+		for len(chain) < o.at {
+			if !commit() {
+				return
+			}
+		}
+		if !check(o.height, fmt.Sprintf("family %s, open at depth %d (boundary %d)", o.fam, o.at-o.height, maxDiff)) {
+			return
+		}
+		tags[o.at], targets[o.height] = true, true
+		c.Hit("deep-orders-opens")
+		if o.at-o.height >= maxDiff {
+			c.Hit("deep-orders-opens-beyond-boundary")
+		}
+	}
+	planned = len(story)
+	// the frontier advances once more, then every identifier that played a part is opened
+	for i := 1 + c.R.Intn(4); i > 0; i-- {
+		if !commit() {
+			return
+		}
+	}
+	sweep := map[int]string{}
+	for t := range tags {
+		for _, h := range []int{t, t - 1, t + 1} {
+			if h >= 1 && h <= len(chain) && sweep[h] == "" {
+				sweep[h] = fmt.Sprintf("former frontier %d", t)
+				if h != t {
+					sweep[h] = fmt.Sprintf("neighbour of the former frontier %d", t)
+				}
+			}
+		}
+	}
+	for x := range targets {
+		// (the deep views are the expensive ones for the model: the identifier itself, and one neighbour for one target in two)
+		for _, h := range []int{x, x - 1 + 2*c.R.Intn(2)} {
+			if h >= 1 && h <= len(chain) && sweep[h] == "" && (h == x || c.R.Intn(2) == 0) {
+				sweep[h] = fmt.Sprintf("the identifier %d that was opened before (or its neighbour)", x)
+			}
+		}
+	}
+	sweep[len(chain)] = "the frontier"
+	hs := make([]int, 0, len(sweep))
+	for h := range sweep {
+		hs = append(hs, h)
+	}
+	sort.Ints(hs)
+	if c.R.Intn(2) == 0 { // either direction
+		for i, j := 0, len(hs)-1; i < j; i, j = i+1, j-1 {
+			hs[i], hs[j] = hs[j], hs[i]
+		}
+	}
+	for _, h := range hs {
+		if !check(h, "sweep: "+sweep[h]) {
+			return
+		}
+		c.Hit("deep-orders-sweep-views")
+	}
+	// …and the former frontiers once more (now with a first-level entry of their own)
+	for t := range tags {
+		if c.R.Intn(3) == 0 {
+			if !check(t, "second sweep") {
+				return
+			}
+		}
+	}
+	c.Hit("deep-orders-scenario")
 }
 
 // vdbDirectedScans delivers, on every run, the family of inputs around the two repaired scan defects (former findings
